@@ -36,8 +36,8 @@ def frozen_values(driver, l, st):
 def run(ctx):
     proof_ok, proof = common.proof_status(ctx, "C05")
     s = ctx.seed
-    nd = 3000 if ctx.quick else 60000
-    nc = 1200 if ctx.quick else 30000
+    nd = 3000 if ctx.quick else 250000
+    nc = 1200 if ctx.quick else 100000
     dres = do.run_dopt(ctx, nd, seed=s + 40)
     cres = dc.run_detailed(ctx, nc, seed=s + 20, prop="C05")
     driver = common.build_driver()
